@@ -20,6 +20,12 @@ CHECKS = {
  "C04": ("exhaustive enumeration of all canonical combinator DAGs up to a node bound x every topological construction order, each run through the real ConstructNode API in a fresh context and judged by a textbook unifier",
          "All DAGs with <=5 (thorough 6; 7 over a reduced 8-symbol alphabet) nodes over an 18-symbol alphabet (well-typed or not, every sharing pattern), as program and as expression, in every linear extension of the dependency order; every Core and Elements jet as a typed leaf in all DAGs of <=3 nodes; pair-doubling macro-cases (up to 100 doublings) for termination, memory and displayability of errors. Verdict, every node's arrow and order-independence are compared on every case.",
          "Trusts the 60-line Robinson unifier and the typing rules as transcribed; DAGs above the node bound are only covered by the doubling macro-cases.", "5/C04"),
+ "C05": ("exhaustive type-directed enumeration of all well-typed terms up to a size bound over all types up to a constructor bound, each built on the real nodes with pinned arrows and executed on the real Bit Machine with every input value in 17 placement contexts, judged by a big-step evaluator",
+         "All terms with <=4/5 nodes for every arrow A->B over the 11/51 types with <=2/3 constructors (iden, unit, injl/r, take, drop, comp through every mid type, case, pair, assertl/r, fail, witness of every value, words, verify), every input value; terms of <=3/4 nodes additionally at read offsets 1..7, write offsets 1..7, inside reused dirty frames and with output copied from a dirty frame; 153 arithmetic/logic/comparison jets against a hand-written table (exhaustive up to 16/20 input bits, 14 corner values per operand above) at 4 placements; disconnect with 3 left shapes x all small right branches (CMR of the branch re-hashed from scratch). Verdict kind (assertion / fail node / jet) and output value compared on every execution.",
+         "Trusts the big-step evaluator and the jet table (the table is itself compared with the C jets here). Hash, secp and introspection jet semantics are not covered (C06 compares those with C).", "5/C05"),
+ "C07": ("the executions of C05 (all terms x inputs x placements, success and failing paths) re-run on a machine instrumented with high-water marks, plus nesting towers and magnitude macro-cases",
+         "Same term space as C05 plus comp/disconnect towers of depth <=4/6 around every small term; cells used <= |A|+|B|+extra_cells and frames used <= extra_frames+2 on every execution; 8/16 pair-doubling depths x 4 tails: programs whose bounds exceed the hard limits must be refused by BitMachine::for_program without the allocation being attempted (allocation meter), accepted ones must run inside their buffer.",
+         "Relies on hook H1 (two counters in new_write_frame) and on debug assertions / overflow checks being enabled in the harness build.", "5/C07"),
  "C09": ("explicit-state breadth-first search over the conversion graph of node kinds (state = history replayed on fresh real objects, canonical key = representation + hidden set + branch attachment) with the CMR invariant checked in every state; exhaustive re-hashing of every node of every constructible DAG from tag strings; exhaustive hiding of every node; population-wide injectivity",
          "All constructible DAGs with <=5 nodes (Core: 23-symbol alphabet; Elements: 18): every node's CMR equals SHA-256 compression over IVs recomputed from the tag strings, before and after inference, and the root is unchanged by hiding any node (thorough: any pair). For every program with <=4/5 nodes a BFS of depth 4/5 over 14 transitions (finalize_types, finalize_unpruned, CommitNode::finalize, unfinalize, unfinalize_types, to_construct_node, Named round trip, encode/decode, change witness, attach/detach branches, hide case children). Injectivity over all constructible DAGs with <=4/5 nodes.",
          "Trusts the from-scratch SHA-256 and the published CMR formulas; jet CMRs are atoms here. No cryptographic claim beyond the enumerated population.", "5/C09"),
